@@ -358,6 +358,46 @@ def unusual_containers(ctx):
     ctx.count("operations on unusual containers", n)
 
 
+def non_affine_units(ctx):
+    """A database to which an application added a unit whose formula is not a straight line (API gravity against specific
+    gravity): Arrays of every container kind and length - long lists and tuples included - are re-expressed and added like
+    the Scalars, element by element."""
+    import numpy as np
+    from barril.units import Array, Scalar, UnitDatabase
+
+    db = UnitDatabase()
+    db.AddUnitBase("relative density", "specific gravity", "sg")
+    db.AddUnit("relative density", "degrees API", "dAPI", "141.5/%f - 131.5", "141.5/(%f + 131.5)")
+    db.AddUnit("relative density", "per mille of water", "pmw", "%f*1000.0", "%f/1000.0")
+    db.AddCategory("relative density", "relative density")
+    n = 0
+    with table.pushed(db):
+        for length in (3, 129, 400):
+            vals = [10.0 + 0.17 * i for i in range(length)]
+            for kname, mk in (("list", list), ("tuple", tuple), ("nd", lambda z: np.array(z, dtype=float))):
+                for u, v in (("dAPI", "sg"), ("sg", "dAPI"), ("dAPI", "pmw"), ("pmw", "dAPI")):
+                    src = vals if u != "sg" else [0.6 + 0.001 * i for i in range(length)]
+                    src = src if u != "pmw" else [600.0 + i for i in range(length)]
+                    ctx.ev()
+                    n += 1
+                    case = {"non-affine unit": True, "u": u, "v": v, "container": kname, "items": length}
+                    ctx.nt(("non-affine", u, v, kname, length))
+                    try:
+                        got = [float(t) for t in Array(mk(src), u).GetValues(v)]
+                        idx = sorted({0, 1, length // 2, length - 1})
+                        want = {i: Scalar(src[i], u).GetValue(v) for i in idx}
+                        if len(got) != length or any(abs(got[i] - w) > 1e-12 * (abs(w) + 1.0) for i, w in want.items()):
+                            ctx.violation("non-affine-unit:array-differs-from-the-scalars:GetValues", dict(case, array=[got[i] for i in idx if i < len(got)], scalars=[want[i] for i in idx]))
+                        if v != "dAPI" and u != "dAPI":
+                            continue
+                        s_ = Array(mk(src), u) + Array(mk(src), u)
+                        if abs(float(s_.GetValues()[0]) - 2 * src[0]) > 1e-12 * abs(src[0]):
+                            ctx.violation("non-affine-unit:array-differs-from-the-scalars:sum", dict(case, got=float(s_.GetValues()[0]), want=2 * src[0]))
+                    except Exception as e:
+                        ctx.violation("non-affine-unit:raised:%s" % type(e).__name__, dict(case, error=str(e)[:160]))
+    ctx.count("arrays re-expressed through a non-affine unit", n)
+
+
 def two_databases(ctx):
     """The same expressions under the shipped table and under another table that gives the same symbols other factors
     (one after the other, both orders, in one process): under each database every container kind gives what the Scalars of
@@ -456,6 +496,7 @@ def run(ctx):
         if ctx.shard == 0:
             large_arrays(ctx, T, db)
     if ctx.shard == 0:
+        non_affine_units(ctx)
         two_databases(ctx)
         with table.pushed(table.build("posc")):
             unusual_containers(ctx)
